@@ -414,7 +414,8 @@ async fn run_pc_case(case: &Value) -> Value {
     rustrtc::verif::set_override("dtls_deadline_ms", Some(900));
     let _ = rustrtc::verif::take_events();
     rustrtc::verif::set_enabled(true);
-    let cfg = PairCfg::default(); // WebRtc, data channel, offerer A (= DTLS client)
+    // WebRtc, audio + data channel (two media sections, bundled: one DTLS association), offerer A (= DTLS client)
+    let cfg = PairCfg::from_json(&json!({"media": ["audio", "dc"]}));
     let pair = Pair::new(&cfg);
     let mut obs = json!({});
     let res: Result<(), String> = async {
@@ -432,7 +433,11 @@ async fn run_pc_case(case: &Value) -> Value {
             .ok_or("answer without fingerprint")?;
         let wrong = dtls::fingerprint(&dtls::generate_certificate().map_err(|e| e.to_string())?);
         let sess = present(case["session"].as_str().unwrap_or("none"), &genuine, &wrong);
-        let media = present(case["media"].as_str().unwrap_or("none"), &genuine, &wrong);
+        let medias = [
+            present(case["media"].as_str().unwrap_or("none"), &genuine, &wrong),
+            present(case["media2"].as_str().unwrap_or("none"), &genuine, &wrong),
+        ];
+        let mut section = 0usize;
         let mut out = String::new();
         let mut in_media = false;
         let mut placed_session = false;
@@ -450,15 +455,17 @@ async fn run_pc_case(case: &Value) -> Value {
                 in_media = true;
                 out.push_str(line);
                 out.push_str("\r\n");
-                if let Some(m) = &media {
+                if let Some(Some(m)) = medias.get(section) {
                     out.push_str(&format!("a=fingerprint:{m}\r\n"));
                 }
+                section += 1;
                 continue;
             }
             let _ = in_media;
             out.push_str(line);
             out.push_str("\r\n");
         }
+        obs["media_sections"] = json!(section);
         obs["sdp_fingerprint_lines"] = json!(out.lines().filter(|l| l.starts_with("a=fingerprint")).collect::<Vec<_>>());
         let parsed = rustrtc::sdp::SessionDescription::parse(rustrtc::sdp::SdpType::Answer, &out);
         let desc = match parsed {
